@@ -157,6 +157,38 @@ def random_gates(n, length, rnd, mix="uniform"):
     return out[:length] if mix != "redundant" else out
 
 
+def cheap_uncoupled(n, rnd, kind=None):
+    """Short input circuits whose few two-qubit gates sit on arbitrary (typically uncoupled) pairs:
+    GHZ fan-outs, long-range Bell pairs, 1-3 random two-qubit gates dressed with local gates.  They are
+    cheaper than or as cheap as the tailored circuit, which is where an 'already optimal' shortcut bites."""
+    kind = kind or rnd.choice(["fanout", "bell", "few", "swapbell"])
+    g = []
+    if kind == "fanout":
+        c = rnd.randrange(n)
+        g.append(("h", (c,)))
+        for t in rnd.sample([q for q in range(n) if q != c], rnd.randrange(1, n)):
+            g.append(("cx", (c, t)))
+    elif kind == "bell":
+        a, b = rnd.sample(range(n), 2)
+        g += [("h", (a,)), ("cx", (a, b))]
+        if n >= 4 and rnd.random() < 0.5:
+            c, d = rnd.sample([q for q in range(n) if q not in (a, b)], 2)
+            g += [("h", (c,)), ("cz", (c, d)), ("h", (d,))]
+    elif kind == "swapbell":
+        a, b, c = rnd.sample(range(n), 3) if n >= 3 else (0, 1, 0)
+        g += [("h", (a,)), ("cx", (a, b))]
+        if n >= 3:
+            g.append(("swap", (b, c)))
+    else:
+        for _ in range(rnd.randrange(1, 4)):
+            a, b = rnd.sample(range(n), 2)
+            g += [(rnd.choice(["h", "s", "sdg", "x"]), (a,)), (rnd.choice(["cx", "cz"]), (a, b)), (rnd.choice(["h", "s", "z", "y"]), (b,))]
+    for q in range(n):
+        if rnd.random() < 0.3:
+            g.append((rnd.choice(["x", "z", "s", "h", "y"]), (q,)))
+    return g
+
+
 def case_json(case):
     """JSON-able replay form of a member/case dict."""
     return {"n": case["n"], "gens": [to_str(g, case["n"]) for g in case["gens"]],
